@@ -1,4 +1,57 @@
-//! C03 scenarios (readers frozen) — filled in below.
+//! C03 scenarios: single-threaded interleavings of opening / closing up to k simultaneous readers
+//! with committing and rolling-back writers over a page-reusing workload; every open reader is
+//! re-dumped in full after every action and must still show the state it was opened on.
+
+use crate::drivers::KV_KEYS;
+use crate::refmodel::OpSpec;
 use crate::report::Tier;
+use crate::runner::{Action, Cfg, Oracles};
 use crate::seqx::Scenario;
-pub fn scenarios(_tier: Tier) -> Vec<Scenario> { vec![] }
+
+fn menu() -> Vec<Vec<OpSpec>> {
+    vec![
+        vec![OpSpec::put(&["b"], "k0", "v*8")],
+        vec![OpSpec::del(&["b"], "k1"), OpSpec::put(&["b"], "k1", "y*310")],
+        vec![OpSpec::bucket("delb", &[], "c"), OpSpec::bucket("create", &[], "c"), OpSpec::put(&["c"], "x", "w*300")],
+        vec![OpSpec::put(&["b"], "k2", "x*1500")],
+        vec![OpSpec::put(&["b"], "k0", "w*300"), OpSpec::put(&["b"], "k2", "w*300")],
+        vec![OpSpec::del(&["b"], "k3"), OpSpec::del(&["b"], "k4"), OpSpec::del(&["b"], "k5"), OpSpec::put(&["b"], "k4", "w*300")],
+    ]
+}
+
+fn setup() -> Vec<Action> {
+    let mut ops = vec![OpSpec::bucket("create", &[], "b"), OpSpec::bucket("create", &[], "c")];
+    for k in KV_KEYS {
+        ops.push(OpSpec::put(&["b"], k, "w*300"));
+    }
+    for i in 0..3 {
+        ops.push(OpSpec::put(&["c"], &format!("c{}", i), "w*300"));
+    }
+    vec![Action::Tx { ops, commit: true }, Action::Tx { ops: vec![OpSpec::put(&["c"], "c0", "v*8")], commit: true }, Action::Reopen]
+}
+
+pub fn scenarios(tier: Tier) -> Vec<Scenario> {
+    let q = tier == Tier::Quick;
+    let m = menu();
+    let mut out = vec![];
+    for (name, k, nmenu, depth) in if q { vec![("k2-menu4", 2usize, 4usize, 8usize), ("k3-menu4", 3, 4, 7)] } else { vec![("k2-menu6", 2, 6, 10), ("k3-menu4", 3, 4, 11), ("k3-menu6", 3, 6, 9)] } {
+        let mut alpha: Vec<Action> = vec![Action::OpenReader];
+        for i in 0..k {
+            alpha.push(Action::CloseReader(i));
+        }
+        for b in m.iter().take(nmenu) {
+            alpha.push(Action::Tx { ops: b.clone(), commit: true });
+        }
+        // rolled-back writers (the two largest bodies)
+        alpha.push(Action::Tx { ops: m[2].clone(), commit: false });
+        alpha.push(Action::Tx { ops: m[3].clone(), commit: false });
+        let or = Oracles { readers_frozen: true, dump_after: true, ..Oracles::NONE };
+        // pre-sized file: growth while the same thread holds a reader self-deadlocks by design
+        let cfg = Cfg { num_pages: 2000, ..Cfg::default() };
+        let mut sc = Scenario::new(&format!("readers-{}", name), cfg, setup(), Box::new(alpha), depth, or);
+        sc.poison_unmap = true;
+        sc.max_readers = k;
+        out.push(sc);
+    }
+    out
+}
